@@ -21,7 +21,7 @@ def contramap (pre : List Expr) (p : Prog) : Prog := .dimap (.exprs pre) p retId
     gen_fn.contramap(lambda _idx, args: args).vmap(in_axes=(0, None)).contramap(lambda *args: (zeros(n), args)). -/
 def «repeat» (p : Prog) (n : Nat) : Prog :=
   .dimap (.whole (.tup [.zeros n, .all]))
-    (.vmap (.dimap (.whole (.var 1)) p retId) [true, false])
+    (.vmap (.dimap (.whole (.var 1)) p retId) [some 0, none])
     retId
 
 /-- `or_else`: if_gen_fn.switch(else_gen_fn).contramap(lambda b, if_args, else_args: (int(not b), if_args, else_args)). -/
